@@ -288,6 +288,56 @@ func runC12(c *mon.Ctx) {
 		}
 	}
 
+	// ---- presentations whose first bytes look like text: legal DEFLATE all the same ----
+	ck := 0
+	for _, L := range []int64{0, 64 << 10} {
+		for ei, ep := range eps {
+			for _, form := range []string{"first-byte-lt", "space-then-lt", "first-byte-paren", "first-byte-zero-digit"} {
+				ck++
+				cs := c.Begin("text-like-deflate", ck)
+				if cs == nil {
+					continue
+				}
+				eff := L
+				if eff == 0 || ep.fixed {
+					eff = c12Default
+				}
+				doc, signed, what := pad(ep.kind, 6000)
+				var z []byte
+				switch form {
+				case "first-byte-lt":
+					z = sim.DeflateStartingWithLT([]byte(doc))
+				case "space-then-lt":
+					z = sim.DeflateStoredSniff([]byte(doc), ' ', 0x3C)
+				case "first-byte-paren":
+					z = sim.DeflateStoredSniff([]byte(doc), '(', 0x100)
+				default:
+					z = sim.DeflateStoredSniff([]byte(doc), '0', 0x3C)
+				}
+				cs.Desc("L=%d entry=%s form=%s doc=%s", L, ep.name, form, what)
+				cs.Input(z)
+				var got, twin string
+				var gerr, terr error
+				pv, _ := mon.Guard(func() {
+					got, gerr = ep.call(mkSP(signed, L), base64.StdEncoding.EncodeToString(z))
+					twin, terr = ep.call(mkSP(signed, L), base64.StdEncoding.EncodeToString([]byte(doc)))
+				})
+				if pv != nil {
+					cs.Violation("panic", "panic: %v", pv)
+					continue
+				}
+				cs.Nontrivial(cs.Description())
+				if c12Class(gerr) != c12Class(terr) || (gerr == nil && got != twin) {
+					cs.Outcome("twin-differs")
+					cs.Violation("not-transparent:text-like-stream", "a legal DEFLATE stream beginning with %q gives %q (%v); the uncompressed twin gives %q", string(z[:2]), c12Class(gerr), gerr, c12Class(terr))
+				} else {
+					cs.Outcome("transparent:" + c12Class(gerr))
+				}
+				_ = ei
+			}
+		}
+	}
+
 	// ---- the limit in force is the one configured now, also on an SP that has already handled messages ----
 	rk := 0
 	for _, from := range []int64{0, 4096, 1 << 20} {
